@@ -417,9 +417,9 @@ func newRecordIterators(ctx *Context, structType reflect.Type, name string) (typ
 	recordIterator = func(context *Context, value reflect.Value) {
 		context.EventReceiver.OnRecord(identifier)
 		for _, field := range fields {
-			fieldValue := field.getValueFromStruct(value)
-			if shouldIncludeField(field, fieldValue, ctx.Configuration.Iterator.DefaultFieldOmitBehavior) {
-				field.Iterate(context, fieldValue)
+			// A record carries exactly the fields its record type declares, empty or not.
+			if shouldIncludeField(field, dummyValue, ctx.Configuration.Iterator.DefaultFieldOmitBehavior) {
+				field.Iterate(context, field.getValueFromStruct(value))
 			}
 		}
 		context.EventReceiver.OnEndContainer()
